@@ -163,9 +163,22 @@ def poly(d, files, a, b, fault_at):
             out_formats = list(quiet(pg.identify_pytorch_file_format, os.path.join(work, outname)))
         except Exception:  # noqa: BLE001
             out_formats = []
+    expected = []
+    if outcome == "made":
+        # the formats the construction combines: the documented pairs, otherwise (a construction the table does not
+        # list) what each input is primarily identified as
+        expected = COMBINES.get(frozenset((a, b)))
+        if expected is None:
+            expected = []
+            for f in (files[a], files[b]):
+                try:
+                    fs = list(quiet(pg.identify_pytorch_file_format, f))
+                except Exception:  # noqa: BLE001
+                    fs = []
+                expected += fs[:1]
     return {"kind": "poly", "a": a, "b": b, "fault_at": fault_at, "outcome": outcome, "exc": exc,
             "inputs_same": os.path.exists(pa) and os.path.exists(pb) and sha(pa) == ha and sha(pb) == hb,
-            "leftovers": left, "expected": COMBINES.get(frozenset((a, b)), []) if outcome == "made" else [], "out_formats": out_formats}
+            "leftovers": left, "expected": expected, "out_formats": out_formats}
 
 
 def main():
